@@ -79,15 +79,18 @@ package parser
 //@   modifies p.curToken, p.peekToken, p.l.*
 //@   decreases PD(p), 1
 
+// C13: a parser error carries the given line and the file being parsed
 //@ func (p *Parser) newError
 //@   nodefault
 //@   requires true
+//@   call New#0: assert carries-line-and-file: arg0 == line && arg1 == p.filepath
 //@   ensures len(p.errors) == old(len(p.errors)) + 1
 //@   modifies p.errors, anyslice(*fail.Error)
 //@   decreases PD(p), 1
 
 //@ func (p *Parser) expectPeek
 //@   nodefault
+//@   call newError#0: assert line-of-the-unexpected-token: arg1 == p.peekToken.Pos.EndLine + 1
 //@   requires ParInv(p) && validTok(tok) && tok != token.EOF
 //@   ensures ParStep(p, old(PD(p)), old(p.curToken.Type), old(len(p.errors)))
 //@   ensures result ==> old(p.peekToken.Type) == tok && p.curToken == old(p.peekToken) && PD(p) < old(PD(p)) && len(p.errors) == old(len(p.errors))
@@ -103,6 +106,7 @@ package parser
 // ---- program / statements ----
 
 //@ func (p *Parser) ParseProgram
+//@   call newError#*: assert line-of-the-current-token: arg1 == p.curToken.Pos.EndLine + 1
 //@   nodefault
 //@   requires ParInv(p)
 //@   ensures ParInv(p)
@@ -120,12 +124,14 @@ package parser
 //@   decreases PD(p), 19
 
 //@ func (p *Parser) parseBlockStmt
+//@   call newError#*: assert line-of-the-current-token: arg1 == p.curToken.Pos.EndLine + 1
 //@   decreases PD(p), 20
 //@   loop 0: invariant ParInv(p) && PD(p) <= old(PD(p)) && len(p.errors) >= old(len(p.errors)) && stmt != nil
 //@   loop 0: invariant PD(p) == old(PD(p)) ==> p.curToken.Type == old(p.curToken.Type)
 //@   loop 0: decreases PD(p)
 
 //@ func (p *Parser) parseEmbeddedCode
+//@   call newError#*: assert line-of-the-current-token: arg1 == p.curToken.Pos.EndLine + 1
 //@   decreases PD(p), 18
 //@ func (p *Parser) parseIfStmt
 //@   decreases PD(p), 18
@@ -150,6 +156,7 @@ package parser
 //@ func (p *Parser) parseContinueIfStmt
 //@   decreases PD(p), 18
 //@ func (p *Parser) parseComponentStmt
+//@   call newError#*: assert line-of-the-current-token: arg1 == p.curToken.Pos.EndLine + 1
 //@   decreases PD(p), 18
 //@   goal registers-a-fresh-statement: result != nil ==> fresh(result) && len(p.components) >= 1
 //@ func (p *Parser) parseSlotStmt
@@ -162,6 +169,7 @@ package parser
 //@   ensures result != nil ==> PD(p) < old(PD(p))
 //@   decreases PD(p), 17
 //@ func (p *Parser) parseAlternativeBlock
+//@   call newError#*: assert line-of-the-unexpected-token: arg1 == p.peekToken.Pos.EndLine + 1
 //@   requires p.peekToken.Type == token.ELSE
 //@   decreases PD(p), 17
 //@ func (p *Parser) parseSlots
@@ -172,6 +180,7 @@ package parser
 //@   loop 1: invariant ParInv(p) && PD(p) < athead(0, PD(p)) && len(p.errors) >= old(len(p.errors))
 //@   loop 1: decreases PD(p)
 //@ func (p *Parser) parseAssignStmt
+//@   call newError#*: assert line-of-the-current-token: arg1 == p.curToken.Pos.EndLine + 1
 //@   decreases PD(p), 16
 //@   call parseExpression#0: assert rhs-complete: arg1 == LOWEST
 //@ func (p *Parser) parseExpressionStmt
@@ -186,6 +195,7 @@ package parser
 //@ spec terminator(t token.TokenType) bool = t == token.RBRACES || t == token.SEMI || t == token.RPAREN
 
 //@ func (p *Parser) parseExpression
+//@   call newError#*: assert line-of-the-current-token: arg1 == p.curToken.Pos.EndLine + 1
 //@   requires precedence >= LOWEST
 //@   decreases PD(p), 14
 //@   goal table.ternary: LOWEST < prec(token.QUESTION) && prec(token.QUESTION) == TERNARY && prec(token.QUESTION) < prec(token.EQ)
@@ -220,6 +230,7 @@ package parser
 //@   loop 0: invariant ParInv(p) && PD(p) < old(PD(p)) && len(p.errors) >= old(len(p.errors)) && obj != nil && obj.Pairs != nil
 //@   loop 0: decreases PD(p)
 //@ func (p *Parser) parseInfixExp
+//@   call newError#*: assert line-of-the-current-token: arg1 == p.curToken.Pos.EndLine + 1
 //@   requires p.curToken.Type != token.EOF && has(precedences, p.curToken.Type)
 //@   call parseExpression#0: assert rhs-level: arg1 == prec(old(p.curToken.Type))
 //@   call parseExpression#0: bind rhs
@@ -245,6 +256,7 @@ package parser
 //@   requires p.curToken.Type != token.EOF
 //@   decreases PD(p), 13
 //@ func (p *Parser) parseCallExp
+//@   call newError#*: assert line-of-the-current-token: arg1 == p.curToken.Pos.EndLine + 1
 //@   decreases PD(p), 12
 //@ func (p *Parser) parseExpressionList
 //@   requires p.curToken.Type != token.EOF && validTok(endTok) && endTok != token.EOF
@@ -257,10 +269,12 @@ package parser
 //@ func (p *Parser) parseIdentifier
 //@   decreases PD(p), 2
 //@ func (p *Parser) parseIntegerLiteral
+//@   call newError#*: assert line-of-the-current-token: arg1 == p.curToken.Pos.EndLine + 1
 //@   decreases PD(p), 2
 //@   goal out-of-range-is-error: result == nil ==> len(p.errors) == old(len(p.errors)) + 1
 //@   goal value: result != nil ==> istype(result, *ast.IntegerLiteral) && as(result, *ast.IntegerLiteral).Token == p.curToken
 //@ func (p *Parser) parseFloatLiteral
+//@   call newError#*: assert line-of-the-current-token: arg1 == p.curToken.Pos.EndLine + 1
 //@   decreases PD(p), 2
 //@ func (p *Parser) parseStringLiteral
 //@   decreases PD(p), 2
@@ -270,8 +284,10 @@ package parser
 //@ func (p *Parser) parseBooleanLiteral
 //@   decreases PD(p), 2
 //@ func (p *Parser) parseAliasPathShortcut
+//@   call newError#*: assert line-of-the-current-token: arg1 == p.curToken.Pos.EndLine + 1
 //@   decreases PD(p), 2
 //@ func (p *Parser) checkDuplicateInserts
+//@   call newError#*: assert line-of-the-insert: arg1 == stmt.Token.Pos.EndLine + 1
 //@   requires ParInv(p) && stmt != nil && stmt.Name != nil
 //@   decreases PD(p), 2
 
